@@ -149,7 +149,12 @@ func (c RawConfiguration) handleCorrectableCall(ctx context.Context, corr *Corre
 		// check before waiting: there may be no node to wait for at all
 		if (state.data.ServerStream && len(errs) == state.expectedReplies) ||
 			(!state.data.ServerStream && len(errs)+len(replies) == state.expectedReplies) {
-			corr.set(resp, clevel, QuorumCallError{cause: Incomplete, errors: errs, replies: len(replies)}, true)
+			cause := Incomplete
+			if ctx.Err() != nil {
+				// the context ended first; node errors caused by that are not answers
+				cause = ctx.Err()
+			}
+			corr.set(resp, clevel, QuorumCallError{cause: cause, errors: errs, replies: len(replies)}, true)
 			return
 		}
 		select {
